@@ -14,6 +14,7 @@ prop("C01",
                "correspondence with the REAL FloatingIPPlugin (see C04); monitor = no address in the binding annotation of two "
                "live pods, IPAM dump lists every address once, FloatingIP objects and memory agree on key/uid/node/policy; "
                "the C04 oracle runs silently to attribute a shared address to its root cause",
+     lean_modules=["Galaxy.Props.C01", "Galaxy.Lemmas.PluginCrash", "Galaxy.Lemmas.PluginReserved"],
      factgen=["plugin"],
      drivers=["plugin"],
      trusted=["tools/factgen/cmd/plugin: syntactic extraction", "harness/plugin: fake clientsets, decorator, controlled listers (see C04)"],
